@@ -69,8 +69,8 @@ DEFAULT_PROFILE = dict(
     p_eff=0.5,             # AppEff < 100
     p_cap=0.3,             # seasonal cap likely to bind
     p_fm=0.5, p_ffm=0.3, p_bunds=0.4, p_mulch=0.4,
-    p_gw=0.3, gw_shallow=False,
-    p_co2=0.2,
+    p_gw=0.3, gw_shallow=False, gw_kinds=None,
+    p_co2=0.2, co2_kinds=None,
     iwc=(("FC", 3), ("WP", 2), ("SAT", 2), ("Pct", 2), ("Num", 1), ("Depth", 2)),
     storms=(0, 4), storm_mm=(50, 300),
     dry_spells=(0, 1), temp_events=(0, 1),
@@ -397,7 +397,7 @@ def field_mngts(draw, P, cn):
 
 @st.composite
 def groundwaters(draw, P, start, ndays):
-    kind = draw(st.sampled_from(["const", "const", "Constant", "Variable"]))
+    kind = draw(st.sampled_from(list(P.get("gw_kinds") or ["const", "const", "Constant", "Variable"])))
     if P["gw_shallow"]:
         depth = st.one_of(f2(0.1, 3.0), f2(0.1, 3.0), f2(3.0, 8.0))
     else:
@@ -411,8 +411,8 @@ def groundwaters(draw, P, start, ndays):
 
 
 @st.composite
-def co2s(draw, y0, y1):
-    k = draw(st.sampled_from(["const", "const_default", "table"]))
+def co2s(draw, y0, y1, kinds=None):
+    k = draw(st.sampled_from(list(kinds or ["const", "const_default", "table"])))
     if k == "const":
         return {"constant": float(draw(st.integers(250, 2500)))}
     if k == "const_default":
@@ -490,7 +490,7 @@ def configs(draw, P=None):
     cfg["fm"] = draw(field_mngts(P, cn)) if flag(draw, P["p_fm"]) else None
     cfg["ffm"] = draw(field_mngts(P, cn)) if flag(draw, P["p_ffm"]) else None
     cfg["gw"] = draw(groundwaters(P, start, ndays)) if flag(draw, P["p_gw"]) else None
-    cfg["co2"] = draw(co2s(start.year, end.year)) if flag(draw, P["p_co2"]) else None
+    cfg["co2"] = draw(co2s(start.year, end.year, P.get("co2_kinds"))) if flag(draw, P["p_co2"]) else None
 
     # ---- weather -------------------------------------------------------------------------------
     pad_b = draw(st.integers(*P["pad"]))
